@@ -310,16 +310,19 @@ type v16Env struct {
 	kick         atomic.Bool
 	kicked       atomic.Int32
 
-	cfgCalls  int
-	cfgFail   int // next k configFunc calls fail
-	facFail   int // next k ConnFactory.New calls fail
-	newCalls  int
-	newAddrs  []string
-	reuse     int
-	socks     []*v16Sock
-	connected []v16Connected
-	unreach   bool // sockets created from now on cannot send (fast "server unreachable")
-	fastOpen  bool
+	cfgCalls    int
+	cfgFail     int // next k configFunc calls fail
+	facFail     int // next k ConnFactory.New calls fail
+	newCalls    int
+	newAddrs    []string
+	reuse       int
+	socks       []*v16Sock
+	connected   []v16Connected
+	parkArmed   bool
+	parkEntered chan struct{}
+	parkRelease chan struct{}
+	unreach     bool // sockets created from now on cannot send (fast "server unreachable")
+	fastOpen    bool
 
 	rc Client
 }
@@ -354,6 +357,22 @@ func (e *v16Env) configFunc() (*Config, error) {
 	defer e.mu.Unlock()
 	e.cfgCalls++
 	n := e.cfgCalls
+	if e.parkArmed {
+		// harness-owned yield point: "slow configuration evaluation" (DNS...). The
+		// harness decides what else happens (Close, other callers) before it goes on.
+		e.parkArmed = false
+		ent, rel := e.parkEntered, e.parkRelease
+		e.logfLocked("configFunc call #%d entered and PARKED by the harness", n)
+		e.mu.Unlock()
+		close(ent)
+		select {
+		case <-rel:
+		case <-time.After(v16CallWatchdog):
+			vInconclusive("C16: parked configFunc was never released")
+		}
+		e.mu.Lock()
+		e.logfLocked("configFunc call #%d released", n)
+	}
 	if e.cfgFail > 0 {
 		e.cfgFail--
 		e.logfLocked("configFunc call #%d -> scripted error", n)
@@ -371,6 +390,28 @@ func (e *v16Env) configFunc() (*Config, error) {
 		},
 		FastOpen: e.fastOpen,
 	}, nil
+}
+
+// armPark makes the next configFunc evaluation park until releasePark.
+func (e *v16Env) armPark() chan struct{} {
+	e.mu.Lock()
+	defer e.mu.Unlock()
+	e.parkArmed = true
+	e.parkEntered = make(chan struct{})
+	e.parkRelease = make(chan struct{})
+	return e.parkEntered
+}
+
+// releasePark disarms the yield point and releases a parked configFunc, if any.
+func (e *v16Env) releasePark() {
+	e.mu.Lock()
+	e.parkArmed = false
+	rel := e.parkRelease
+	e.parkRelease = nil
+	e.mu.Unlock()
+	if rel != nil {
+		close(rel)
+	}
 }
 
 func (e *v16Env) connectedFunc(c Client, info *HandshakeInfo, count int) {
@@ -672,4 +713,8 @@ const (
 	v16CloseGrace   = 3 * time.Second
 	v16CallWatchdog = 120 * time.Second
 	v16EchoTimeout  = 20 * time.Second
+	// silent wait after a silent loss: longer than the configured 4 s idle timeout, so
+	// that normally the idle timer fires while no call is in flight (if it has not
+	// fired yet the next call simply notices the loss itself: both are judged the same)
+	v16IdleWait = 5500 * time.Millisecond
 )
